@@ -149,7 +149,7 @@ func replayShapeHTTP(c *Ctx, run *ev.Run, s *dagm.Sess, sh kvShape, placements [
 					Expected: want, Algo: sh.Algo[p][v-1], Observed: obs}
 				// known finding: the resolver errs inside an inner merge (GetBestKeyVersion turns the error
 				// into "no key", so the GET may answer 404 as well as 400) where the transcription errs too
-				if want > 0 && r.Status != 200 && sh.Algo[p][v-1] == -1 && run.KnownActive(c01InnerMerge) {
+				if want >= 0 && r.Status != 200 && sh.Algo[p][v-1] == -1 && run.KnownActive(c01InnerMerge) {
 					run.ReportKnown(c01InnerMerge)
 					continue
 				}
